@@ -567,15 +567,20 @@ func c01GenTraj(t *rapid.T) c01Traj {
 		}
 	case "linear":
 		meanRate = c01LogUniform(t, "start", 1e-3, 1e5)
+		slopeLo := 1e-3
+		if rapid.IntRange(0, 3).Draw(t, "fastramp") == 0 {
+			// millions of hits per second with a slope that is tiny next to the square of the rate
+			meanRate, slopeLo = c01LogUniform(t, "startfast", 1e5, 2e7), 1e-7
+		}
 		c.P.Freq, c.P.Per = c01RateAs(t, "startas", meanRate)
 		meanRate = float64(c.P.Freq) / float64(c.P.Per) * 1e9
 		switch rapid.IntRange(0, 4).Draw(t, "slopek") {
 		case 0:
 			c.P.SlopeBits = math.Float64bits(0)
 		case 1, 2:
-			c.P.SlopeBits = math.Float64bits(c01LogUniform(t, "slope", 1e-3, 1e6))
+			c.P.SlopeBits = math.Float64bits(c01LogUniform(t, "slope", slopeLo, 1e6))
 		default:
-			c.P.SlopeBits = math.Float64bits(-c01LogUniform(t, "slope", 1e-3, 1e6))
+			c.P.SlopeBits = math.Float64bits(-c01LogUniform(t, "slope", slopeLo, 1e6))
 		}
 	}
 	if c.P.Kind == "constant" && rapid.IntRange(0, 3).Draw(t, "late-start") == 0 {
